@@ -70,6 +70,11 @@ def inject(scratch, units, extra_tests=None):
                 a, b = rustscan.find_expr_after(src, it, s['key'], s.get('nth', 0))
             elif kind == 'call':
                 a, b = rustscan.find_call(src, it, s['key'], s.get('nth', 0))
+            elif kind == 'regex':
+                ms = list(re.finditer(s['key'], rustscan.mask(src)[it.body_open:it.body_close]))
+                if len(ms) <= s.get('nth', 0):
+                    raise rustscan.LostAnchor(f'unit {u.name}: /{s["key"]}/ (#{s.get("nth", 0)}) not found in fn {s["fn"]}')
+                a, b = it.body_open + ms[s.get('nth', 0)].start(), it.body_open + ms[s.get('nth', 0)].end()
             else:
                 raise Undecided(f'unit {u.name}: unknown slice kind {kind}')
             text = src[a:b].strip()
